@@ -113,6 +113,12 @@ def gen_cases(rng, n):
     e1, e2, e3 = "E" + hx(b"one:1|c"), "E" + hx("zw\u00f6lf:12|ms".encode()), "E" + hx(b"three:3|g")
     for seq in ([e1, "m", e2], [e1, e2, "m", e3, e1], ["m", e1], [e1, "m", "m", e2]):
         cases.append("XS - q0 " + ",".join(seq))
+    # the Unix sinks given a path whose file name is not valid UTF-8 (a second listener sits at the lossy name)
+    for seq in ([e1], [e1, e2, e3], [e2, e2]):
+        cases.append("XN - q0 " + ",".join(seq))
+    for cap in ("d", "8", "64"):
+        for seq in ([e1, "F"], [e1, e2, e3, "F", e1], [e3, e3, e3, e3]):
+            cases.append("BXN %s q0 %s" % (cap, ",".join(seq)))
     for cap in ("d", "8", "20", "64"):
         for seq in ([e1, "m", e2, "F"], [e1, e2, "F", "m", e3, "F", e1], [e1, "m", "F", e2], [e1, e2, "m", e3, e3, e3]):
             cases.append("BXS %s q0 %s" % (cap, ",".join(seq)))
@@ -173,9 +179,9 @@ def stats_sample_cases(rng, n):
 def xw_as_model_case(case, obs):
     case = without_samples(case)
     t = case.split()
-    if t[0] in ("XS", "BXS"):
+    if t[0] in ("XS", "BXS", "XN", "BXN"):
         ops = ",".join(o for o in t[3].split(",") if o != "m")
-        return ("X b q0 " if t[0] == "XS" else "BX %s q0 " % t[1]) + ops
+        return ("X b q0 " if t[0] in ("XS", "XN") else "BX %s q0 " % t[1]) + ops
     if t[0] in ("UR", "XL", "UA6", "UO") or (t[0] == "BU" and t[1].isdigit() and int(t[1]) > 65000):
         return "UA 0 -"          # judged on the implementation's observation only
     if t[0] != "XW":
@@ -261,6 +267,16 @@ def judge_uo(t, obs):
     bad = []
     if any(len(d) > 65507 for d in dg):
         return bad              # this OS delivered it: nothing to say
+    # whatever the OS says to a datagram that large: an emit that answers Ok has sent its metric whole (Ok with the
+    # metric's byte length - C13; C06 for the buffered sink, where it is written during its own emit, alone)
+    if res[1][0] == "k":
+        whole = ("big:%s|c" % ("9" * 70000)).encode()
+        if whole not in dg:
+            why = ("the 70 006-byte metric was acknowledged with Ok(%s) but no datagram carries it whole (datagrams of %s bytes "
+                   "arrived)" % (res[1][1:], [len(d) for d in dg]))
+            bad.append(("C13", why))
+            if t[1] != "u":
+                bad.append(("C06", why))
     if t[1] == "u":
         if res[:3] == ["k5", "e", "k5"]:
             want = [10, 2, big, 1]
@@ -399,6 +415,14 @@ def judge(case, obs):
         return bad
     if t[0] == "UR":
         return judge_ur(t, obs)
+    if t[0] in ("XN", "BXN"):
+        parts = dict(x.split(":", 1) for x in obs.split("|"))
+        total = len([d for d in parts["D"].split(";") if d != ""]) if parts["D"] else 0
+        if int(parts["P"]) != total:
+            bad.append(("C13", "the sink was given a path that is not valid UTF-8; %d of %d datagrams did not reach the listener bound "
+                        "at exactly that path (they went to the name a lossy string conversion gives)" % (total - int(parts["P"]), total)))
+        plain = xw_as_model_case(case, obs)
+        return bad + judge(plain, "R:%s|D:%s|S:%s" % (parts["R"], parts["D"], parts["S"]))
     if t[0] in ("XS", "BXS"):
         parts = dict(x.split(":", 1) for x in obs.split("|"))
         seen = [int(x) for x in parts["N"].split(",")]
@@ -589,7 +613,7 @@ def run_sock_check(prop, tier, seed):
                 impl[i], model[i] = xw_views(c, impl[i], model[i])
             elif c.split()[0] in ("UR", "XL", "UA6", "UO") or (c.startswith("BU ") and c.split()[1].isdigit() and int(c.split()[1]) > 65000):
                 model[i] = impl[i]                 # judged, not modelled
-            elif c.startswith("XS") or c.startswith("BXS"):
+            elif c.split()[0] in ("XS", "BXS", "XN", "BXN"):
                 # which listener got what is judged, not modelled; the `-` of op m is not in the model's results
                 ip = dict(x.split(":", 1) for x in impl[i].split("|"))
                 impl[i] = "R:%s|D:%s|S:%s" % (",".join(r for r in ip["R"].split(",") if r != "-"), ip["D"], ip["S"])
